@@ -378,18 +378,20 @@ let verdict case impl =
        does not fix the ignorable class (the model's table is the reading): where the real table differs
        from the model's for an outcome of this case, every difference is a broken correspondence *)
     let cls, observed = List.partition (fun t -> String.length t >= 2 && String.sub t 0 2 = "c=") observed in
-    let bad_token = match cls with
-      | [c] -> c <> "c=-" && String.length c - 2 <> List.length fs
-      | _ -> true in
-    if bad_token then "error X-line-without-a-well-formed-c=-token" else
-    let reclassified = match cls with
-      | [c] when c <> "c=-" ->
-        let bits = String.sub c 2 (String.length c - 2) in
-        String.length bits = List.length fs
-        && List.exists2 (fun b (_, o) -> match o with
-            | None -> b <> '-'
-            | Some r -> b <> (if can_be_ignored r then '1' else '0')) (List.init (String.length bits) (String.get bits)) fs
-      | _ -> false in
+    (* the token is `c=` followed by one character per listed fiber ('-' for a None outcome), or `c=-` for a
+       case without fibers; anything else is a malformed line *)
+    let bits = match cls with
+      | [c] ->
+        let b = String.sub c 2 (String.length c - 2) in
+        if fs = [] then (if b = "-" then Some "" else None)
+        else if String.length b = List.length fs then Some b else None
+      | _ -> None in
+    if bits = None then "error X-line-without-a-well-formed-c=-token" else
+    let bits = Option.get bits in
+    let reclassified =
+      List.exists2 (fun b (_, o) -> match o with
+          | None -> b <> '-'
+          | Some r -> b <> (if can_be_ignored r then '1' else '0')) (List.init (String.length bits) (String.get bits)) fs in
     if reclassified then "diff can_be_ignored-differs-for-an-outcome-of-this-case" else
     if observed = [] then "error no-observation" else
     let model () = String.concat " " (List.sort_uniq compare (List.map string_of_obs (timed_runs max iv fs))) in
